@@ -4,8 +4,9 @@ patch="$1"; shift
 cd /repo || exit 9
 if ! git diff --quiet; then echo "repo dirty"; exit 9; fi
 git apply "$patch" || { echo "patch does not apply"; exit 9; }
+trap 'git -C /repo checkout -- .' EXIT INT TERM
 for p in "$@"; do
-  out=$(cd /verif && bin/lv check "$p" 2>&1); rc=$?
+  out=$(cd /verif && timeout ${MUT_TIMEOUT:-900} bin/lv check "$p" 2>&1); rc=$?
   echo "== $p exit=$rc"
   echo "$out" | grep -E "^(VIOLATION|UNDECIDED|CHECKER-ERROR|  obligation|C[0-9]+ tier)" | cut -c1-260 | head -12
 done
